@@ -210,8 +210,8 @@ Print Assumptions C08_total_other_fixed.
     float ceiling is positive, no timeoffset_, times far from the int64 limits, and a content part
     that is not itself the path of an asset.  Everything else the proof needs (tsbd and StartNr not
     nil and in range, periods in 1..3600, start <= stop, the parser cannot panic) is established by
-    the parser inside the proof.  PARTIAL in exactly these exclusions: the chunked writer (its
-    sleep is still unbounded, C08_refuted_current_chunk_sleep), status_loop and the traffic gate
+    the parser inside the proof.  PARTIAL in exactly these exclusions: the chunked writer (guarded since
+    /repo 6ca1ef6, sleep bound C08_chunk_sleep_bounded_partial), status_loop and the traffic gate
     are proved as components but not composed. *)
 Theorem C08_total_guarded_live : forall fx e path nowArg uq,
   fx_stoprel fx = true -> fx_annexI fx = true -> fx_periods fx = true -> fx_snr fx = true ->
@@ -311,11 +311,28 @@ Theorem C08_traffic_current : forall c segPart now,
 Proof. exact (fun c segPart now P C => traffic_gate_safe current c segPart now P C (or_introl eq_refl)). Qed.
 Print Assumptions C08_traffic_current.
 
-(** What is still refuted on the current tree: the unbounded sleep of the chunked writer. *)
-Theorem C08_refuted_current_chunk_sleep :
-  exists r, handler_model current envW r = HHang "app.writeChunkedSegment: sleep".
-Proof. exact (refuted_chunk_sleep eq_refl). Qed.
-Print Assumptions C08_refuted_current_chunk_sleep.
+(** Nothing is refuted on the current tree any more: every witness request of UrlWitness.v gets a
+    deliberate status; the chunked request for a far-future segment with ato_inf (formerly an
+    unbounded sleep of the writer) is a 400 since /repo 6ca1ef6. *)
+Theorem C08_witnesses_current :
+  map (fun r => status_of (handler_model current envW r)) all_witnesses =
+  [400; 400; 400; 400; 400; 400; 400; 400; 400; 400; 400; 400; 400; 400; 404; 400; 404; 400; 400; 400; 200;
+   400; 400; 400; 400; 200].
+Proof. exact witnesses_current. Qed.
+Print Assumptions C08_witnesses_current.
+
+(** The sleep of the chunked writer under the guard 0 <= ato < segment duration: the last chunk comes
+    less than one chunk duration after the segment end, and an admitted request (segment end at most
+    ato after now) therefore sleeps less than the segment duration. Integer arithmetic in milliseconds;
+    the float comparison of CheckTimeValidity itself is not unfolded here (PARTIAL in that respect). *)
+Theorem C08_last_chunk_bound : forall durT chunkDur, 0 < chunkDur -> 0 <= durT ->
+  durT <= (durT + chunkDur - 1) / chunkDur * chunkDur < durT + chunkDur.
+Proof. exact last_chunk_bound. Qed.
+Theorem C08_chunk_sleep_bounded_partial : forall segDurMS atoMS endMS nowMS lastMS,
+  0 <= atoMS < segDurMS -> endMS - nowMS <= atoMS -> lastMS < endMS + (segDurMS - atoMS) ->
+  lastMS - nowMS < segDurMS.
+Proof. exact chunk_sleep_bounded. Qed.
+Print Assumptions C08_chunk_sleep_bounded_partial.
 
 (** Non-vacuity: a hostile but well-formed URL parses to a configuration that satisfies the
     established guards, and the guarded components apply to it. *)
